@@ -4133,9 +4133,28 @@ class SFTPClient:
             raise exc(dstpath.decode('utf-8', 'backslashreplace') +
                       ' must be a directory')
 
+        seen_names: Set[bytes] = set()
+
         for srcname in srcnames:
             srcfile = cast(bytes, srcname.filename)
             basename = srcfs.basename(srcfile)
+
+            # Don't let a source with the same base name as an earlier one
+            # be copied over (and possibly through) what that one created
+            if (dstpath is None or dst_isdir) and basename in seen_names:
+                exc = SFTPFailure(srcfile.decode('utf-8', 'backslashreplace') +
+                                  ' has the same name as an earlier source')
+
+                setattr(exc, 'srcpath', srcfile)
+                setattr(exc, 'dstpath', dstpath)
+
+                if error_handler:
+                    error_handler(exc)
+                    continue
+                else:
+                    raise exc
+
+            seen_names.add(basename)
 
             if dstpath is None:
                 dstfile = basename
